@@ -1,0 +1,43 @@
+//go:build verif
+
+// Contracts (machine-checked by /verif/engine, see /verif/DESIGN.md). Comment-only file.
+package config
+
+// ---- C37: validation reports an error exactly when a documented constraint is broken ------------------------------
+// e(...) records an error (closure Validate$1), w(...) a warning (Validate$2). Each error site below is reached exactly
+// under its constraint's violation, and every constraint that is not checked inside a loop is also shown to be checked
+// whenever validation gets that far (classic mode: not nil, Lite off).
+//@ func (*Config).Validate
+//@   props C37
+//@   loop 1: invariant rangeindex >= -1 && rangeindex < 2
+//@   at-call Validate$1#1 as eNil: assert [nil-config] c == nil
+//@   at-call TrimSpace as ts: assert streq(arg0, c.Bind)
+//@   at-call Validate$1#2 as eBindEmpty: assert [bind-empty] called(ts) && len(res(ts)) == 0
+//@   at-call ValidHostPort#1 as hpBind: assert called(ts) && len(res(ts)) != 0 && streq(arg0, c.Bind)
+//@   at-call Validate$1#3 as eBind: assert [bind-invalid] called(hpBind) && res(hpBind) != nil
+//@   at-call Validate$1#4 as eOps: assert [quota-ops] quota.Enabled && !(quota.OPS > 0)
+//@   at-call Validate$1#5 as eBurst: assert [quota-burst] quota.Enabled && quota.Burst < 1
+//@   at-call Validate$1#6 as eMax: assert [quota-max-entries] quota.Enabled && quota.MaxEntries < 1
+//@   at-call validateProxyProtocol as pp: assert arg0 == c
+//@   at-call validateBackendFloodgate as bf: assert arg0 == c
+//@   at-call Validate as lite: assert [lite-routes-validated-after-the-common-checks] called(pp) && called(bf)
+//@   at-call validateVia as via: assert !c.Lite.Enabled
+//@   at-call Validate$1#7 as eFwd: assert [forwarding-mode] !c.Lite.Enabled && !streq(c.Forwarding.Mode, NoneForwardingMode) && !streq(c.Forwarding.Mode, LegacyForwardingMode) && !streq(c.Forwarding.Mode, VelocityForwardingMode) && !streq(c.Forwarding.Mode, BungeeGuardForwardingMode)
+//@   at-call ValidServerName as sn
+//@   at-call Validate$1#8 as eName: assert [server-name] called(sn) && !res(sn)
+//@   at-call ValidHostPort#2 as hpSrv
+//@   at-call Validate$1#9 as eAddr: assert [server-address] called(hpSrv) && res(hpSrv) != nil
+//@   at-call Validate$1#12 as eLevel: assert [level-outside-minus1-to-9] c.Compression.Level < -1 || c.Compression.Level > 9
+//@   at-call Validate$1#13 as eThr: assert [threshold-below-minus1] c.Compression.Threshold < -1
+//@   ensures [nil-config-is-an-error] c == nil ==> called(eNil)
+//@   ensures [bind-is-checked] c != nil ==> called(ts) && (len(res(ts)) == 0 ==> called(eBindEmpty)) && (len(res(ts)) != 0 ==> called(hpBind) && (res(hpBind) != nil ==> called(eBind)))
+//@   ensures [trusted-proxies-and-floodgate-checked-in-every-mode] c != nil ==> called(pp) && called(bf)
+
+// The trusted proxy list must parse - whether or not the PROXY protocol is enabled.
+//@ func validateProxyProtocol
+//@   props C37
+//@   loop 1: invariant rangeindex >= -1 && called(parse) && rangeindex < len(res(parse, 0))
+//@   at-call ResolveProxyProtocolTrustedProxies as res0: assert ref(arg0) == ref(c.ProxyProtocolTrustedProxies) && len(arg0) == len(c.ProxyProtocolTrustedProxies)
+//@   at-call ParseTrustedNetworks as parse: assert called(res0) && ref(arg0) == ref(res(res0)) && len(arg0) == len(res(res0))
+//@   at-call dyn.e as bad: assert called(parse) && res(parse, 1) != nil
+//@   ensures [unparsable-list-is-an-error] called(parse) && (res(parse, 1) != nil ==> called(bad))
